@@ -129,6 +129,12 @@ def run(ctx, ck):
           '%d parameter-precondition assertions in the taper generators reachable from main '
           '(expected 0; the self-test re-inserts one to show the rule fires)' % n_as)
 
+    # ---------------------------------------------------------------- none-sentinel contradictions
+    ck.rule('R-BELIEF.none-sentinel', 'a parameter meaning "not given" when None is never branched on by truth value elsewhere')
+    from ._sentinel import check_none_sentinel
+    n_opt = check_none_sentinel(ctx, ck, 'R-BELIEF.none-sentinel', [m.funcs[q_] for q_ in closure if q_ in m.funcs])
+    ck.floor('optional parameters tested for None in the closure of main', n_opt, 10)
+
     # ---------------------------------------------------------------- D4 handler shapes
     n_h = 0
     for h in [x for x in walk_no_nested(mainf.node) if isinstance(x, ast.ExceptHandler)]:
